@@ -391,8 +391,10 @@ Fixpoint deep (ev : thunk -> outcome val) (m : nat) (v : val) {struct m} : outco
       | VBool b => Ok (DBool b)
       | VStr s => Ok (DStr s)
       | VClo _ _ _ => Ok DFun
-      | VArr ts => bind (elems ts) (fun ds => Ok (DArr ds))
-      | VRec fs _ => bind (elems (map snd fs)) (fun ds => Ok (DRec (combine (map fst fs) ds)))
+      (* operation.rs Force: `terms.fold(cont, |acc, t| seq t acc)` puts the last element outermost, so the
+         elements are forced from right to left *)
+      | VArr ts => bind (elems (rev ts)) (fun ds => Ok (DArr (rev ds)))
+      | VRec fs _ => bind (elems (rev (map snd fs))) (fun ds => Ok (DRec (combine (map fst fs) (rev ds))))
       | VSealed _ _ l => Err (Blame (lpol l))
       end
   end.
